@@ -212,3 +212,75 @@ def _exclusive(a, b, fn):
     """do statements a and b sit in different arms of the same if statement?"""
     arms_a, arms_b = dict(_arms(a, fn)), dict(_arms(b, fn))
     return any(k in arms_b and arms_b[k] != v for k, v in arms_a.items())
+
+
+R12C_BARE_LABEL_OK = {
+    "_reductions.Unique": "the chunks are a one-column frame of the values themselves: the fallback `columns` of ShuffleReduce IS that column, so a falsy name changes nothing",
+}
+
+
+@rule(
+    "R12b",
+    ["C12", "C10", "C02"],
+    """SHUFFLE KEYS OF A REDUCTION NAME THE COLUMNS THAT ARE SHUFFLED: (a) when a lowering renames the frame's columns before
+    handing it to a shuffle / sort (RenameFrame(frame, mapping)), the key list handed over with it is derived through the same
+    mapping - a key that still carries the old label is taken for an index level and the data is partitioned by the index;
+    (b) `split_by` of a reduction is a list of labels or None, never a bare label: ShuffleReduce reads `self.split_by or
+    columns`, so the labels None / 0 / '' of an unnamed series would select the wrong key.""",
+)
+def r12b(ctx):
+    from sa.rules.util import own_methods, pfind, pmatch
+
+    model = ctx.model
+    SHUFFLERS = {"RearrangeByColumn", "SortValues", "Shuffle", "SetIndex", "SetPartition"}
+    n = 0
+    for mod, cls, fn in model.all_functions():
+        if not pfind("RenameFrame(V_old, V_map)", fn):
+            continue
+        defs = flow.Defs(fn)
+        fq = qual(cls, fn) if cls is not None else f"{mod.name.split('.', 1)[-1]}.{fn.name}"
+        for c in (x for x in iter_body_nodes(fn) if isinstance(x, ast.Call) and (dotted(x.func) or "").split(".")[-1] in SHUFFLERS and len(x.args) >= 2):
+            if not isinstance(c.args[0], ast.Name):
+                continue
+            # the renamings that may reach the frame handed to the shuffle
+            maps = []
+            for d in defs.reaching(c.args[0].id, c):
+                if d.value is not None:
+                    bb = pmatch("RenameFrame(V_old, V_map)", d.value)
+                    if bb is not None:
+                        maps.append(bb["V_map"])
+            if not maps:
+                continue
+            n += 1
+            key = c.args[1]
+            key_txt = ast.unparse(key)
+            if isinstance(key, ast.Name):
+                key_txt += " " + " ".join(ast.unparse(d.value) for d in defs.reaching(key.id, c) if d.value is not None)
+            cid = f"{fq}:renamed-frame-key@{dotted(c.func)}"
+            missing = [m_ for m_ in maps if m_ not in names_in_text(key_txt)]
+            if not missing:
+                ctx.ok(cid, mod.loc(c), f"key derived through {sorted(set(maps))}")
+            else:
+                ctx.bad(cid, mod.loc(c), f"`{c.args[0].id}` may have had its columns renamed by `{missing[0]}` but the key `{ast.unparse(key)}` handed to {dotted(c.func)} is not derived through that mapping: a key that keeps its old label is not a column of the renamed frame and is taken for an index level")
+    ctx.floor("shuffles of a renamed frame", n, 2)
+    m = 0
+    for c, mem in own_methods(model, "split_by"):
+        if not isinstance(mem.node, (ast.FunctionDef, ast.AsyncFunctionDef)):
+            continue
+        m += 1
+        rets = [r.value for r in ast.walk(mem.node) if isinstance(r, ast.Return) and r.value is not None]
+        bare = [r for r in rets if isinstance(r, ast.Attribute) and r.attr in ("name",) or (isinstance(r, ast.Attribute) and r.attr == "name")]
+        cid = f"{c.qual}.split_by"
+        if not bare:
+            ctx.ok(cid, c.module.loc(mem.node), "a list of labels / an operand holding one")
+        elif c.qual in R12C_BARE_LABEL_OK:
+            ctx.exempt(cid, c.module.loc(mem.node), R12C_BARE_LABEL_OK[c.qual])
+        else:
+            ctx.bad(cid, c.module.loc(mem.node), f"{c.qual}.split_by returns the bare label `{ast.unparse(bare[0])}`: for an unnamed series (None) or a label 0 / '' ShuffleReduce's `self.split_by or columns` falls back to the chunk's own columns, so the reduction is shuffled by the wrong key and every value is returned once per partition")
+    ctx.floor("split_by definitions", m, 3)
+
+
+def names_in_text(t):
+    import re as _re2
+
+    return set(_re2.findall(r"[A-Za-z_]\w*", t))
